@@ -8,6 +8,8 @@
    value-array constructor and extraction.  The other API calls are covered by the fault
    enumeration (every k of every scenario on the sanitizer build) only.
    Statements only; proofs in MemFacts.v. *)
+From Sbdf Require Import Imp ImpCall Gen.Prog ImpFactsFrame ImpFactsCmp ImpFactsHeap.
+From Coq Require Import List.
 From Sbdf Require Import Mem MemFacts.
 
 Theorem C14_object_constructors : forall ty count s, fresh_inv s ->
@@ -86,3 +88,15 @@ Theorem C14_bit_array_create : forall s src ty count blocks, fresh_inv s -> obj_
   end.
 Proof. exact va_create_bit_spec. Qed.
 Print Assumptions C14_bit_array_create.
+
+(* ---- the string / byte-array constructors and copies from the source (translated on every run):
+   when the allocation fails, NULL is returned and the memory is exactly as before - no partial
+   object, nothing written through the failed pointer.  (The success branch is C15_source_*.) *)
+Theorem C14_source_alloc_failure :
+  (forall q n m, 0 <= n -> n + 5 <= int_max -> 0 <= q -> q + n <= zlen m -> fails_clean prog_sbdf_str_create_len [VPtr RIn q; VInt n] m) /\
+  (forall pre bytes post, Forall (fun b => b <> 0) bytes -> zlen bytes + 5 <= int_max -> fails_clean prog_sbdf_str_create [VPtr RIn (zlen pre)] (pre ++ bytes ++ 0 :: post)) /\
+  (forall pre bytes post, zlen bytes + 5 <= int_max -> fails_clean prog_sbdf_str_copy [VPtr RIn (zlen pre + 4)] (str_mem pre bytes post)) /\
+  (forall q n m, 0 <= n -> n + 4 <= int_max -> 0 <= q -> q + n <= zlen m -> fails_clean prog_sbdf_ba_create [VPtr RIn q; VInt n] m) /\
+  (forall pre payload post, zlen payload + 4 <= int_max -> fails_clean prog_sbdf_copy_array [VPtr RIn (zlen pre + 4)] (pre ++ le32 (zlen payload) ++ payload ++ post)).
+Proof. exact alloc_failure_source. Qed.
+Print Assumptions C14_source_alloc_failure.
